@@ -82,6 +82,8 @@ let run_group lines =
   | None -> ()
   | Some f ->
     let (out, o) = run_fmt f (List.rev !args) in
+    (* the list-level reference of coq/Fmt/FmtRef.v must agree (that is theorem C19_fmt; checked here on every case too) *)
+    if fmt_ref f (List.rev !args) <> (out, o) then print_string "!MODEL-EXN fmt_ref differs from run_fmt\n";
     print_string (end_line o);
     print_string ("out " ^ hex_of out ^ "\n")
 
